@@ -3,7 +3,7 @@
 K1: features (every single span, two-span features on a grid, both strands) are attached to a witness
 parent (symbols and complements pairwise distinct), either through ``add_feature`` or by attaching a
 database holding genomic coordinates to a sequence with an annotation offset ("loaded for").  A BFS over
-view histories (slices with steps 1 / 2 / -1, rc, copy) reuses the index model of C01; in every reachable
+view histories (slices with steps 1 / 2 / -1, rc, copy, degap; a copy / degapped object is a state of its own) reuses the index model of C01; in every reachable
 state every window query (start, stop, allow_partial) is issued and compared with a model of the
 feature set, and every returned feature's slice with the feature's original residues restricted to what
 the view retains, read on the feature's strand.  Alignments: features on a row and on the alignment,
@@ -18,7 +18,7 @@ PID = "C04"
 LEVEL = "model_checking"
 TECHNIQUE = "explicit-state BFS over view histories x exhaustive feature / query-window enumeration against an index-set model"
 RULE = (
-    "states = canonical views (parent index list, orientation) reached by slice / rc / copy histories; per state every feature of the lattice "
+    "states = canonical views (parent index list, orientation, how the object was last materialised: root / copy sliced / copy unsliced / degap) reached by slice / rc / copy / degap histories; per state every feature of the lattice "
     "(all single spans, two-span grid, both strands) x every query window (start, stop in [0, L]) x allow_partial is evaluated; "
     "transitions = view operations; evaluations = feature-query observations"
 )
@@ -551,6 +551,8 @@ LEVEL_TEXT = (
     "Explicit-state exploration of annotated views: for every reachable slice / rc / copy state of an annotated witness sequence (both implementations, features added "
     "directly or attached as a genomic-coordinate database with an annotation offset) every feature of the lattice is queried with every window and allow_partial "
     "setting, and each returned feature's slice is compared with the feature's original residues restricted to the positions the view retains; alignments with "
-    "every gap mask carry row- and alignment-level features through every slice and rc."
+    "every gap mask carry row- and alignment-level features through every slice and rc, are projected onto the other row and are degapped into a collection; "
+    "old- and new-style sequence collections (features added through the collection, or an attached database that also holds records of a sequence the collection does "
+    "not contain; confusable member names) are taken through take_seqs / degap / rc histories with collection-level and member-level queries."
 )
 LEVEL_NOTE = "Trusted: the C01 index model, the IUPAC complement table. Parents up to the stated length; window semantics are extent based as stated in ASSUMPTIONS."
